@@ -23,9 +23,8 @@ def judge_c03(c, op, cfg, raw):
     if len(got) != len(exp):
         return "%d crossings reported, %d certified (expected %s, got %s)" % (
             len(got), len(exp), [tuple(map(float, e)) for e in exp], [tuple(map(float, g)) for g in got])
-    for g, e in zip(got, sorted(exp)):
-        if abs(g[0] - e[0]) > TOL or abs(g[1] - e[1]) > TOL:
-            return "crossing %s reported as %s" % (tuple(map(float, e)), tuple(map(float, g)))
+    if not ic.same_pairs(got, exp, TOL):
+        return "reported crossings %s, certified %s" % ([tuple(map(float, g)) for g in got], [tuple(map(float, e)) for e in sorted(exp)])
     return None
 
 
@@ -294,6 +293,26 @@ def run(ctx):
         shift = 100
         c2 = [[x + shift for x in c["c2"][0]], c["c2"][1]]
         dis.append({"c1": c["c1"], "c2": c2, "expected": []})
+    # exactly parallel straight segments whose lines are a hair apart (2^-45 .. 2^-31 relative to their offset from the origin):
+    # not collinear, so no common point - axis-parallel ones have strictly disjoint boxes (seed c03-7 made the compiled
+    # collinearity test relative)
+    rng = ctx.rng
+    for _ in range(12 if ctx.quick() else 200):
+        off = F(rng.choice([1, 3, 1024, 5]))
+        gap = F(1, 2 ** rng.choice([45, 48, 44])) * (1 if off < 100 else 2 ** 10) * rng.choice([1, -1])
+        a0, a1, b0, b1 = F(rng.randint(-4, 0)), F(rng.randint(1, 4)), F(rng.randint(-3, 1)), F(rng.randint(2, 5))
+        kind_ = rng.choice(["h", "v", "d"])
+        if kind_ == "h":
+            s1, s2 = [[a0, a1], [off, off]], [[b0, b1], [off + gap, off + gap]]
+        elif kind_ == "v":
+            s1, s2 = [[off, off], [a0, a1]], [[off + gap, off + gap], [b0, b1]]
+        else:
+            s1, s2 = [[a0, a1], [a0 + off, a1 + off]], [[b0, b1], [b0 + off + gap, b1 + off + gap]]
+        if rng.random() < 0.3:
+            s1 = [io.elevate_rows(s1)[0], io.elevate_rows(s1)[1]]
+        if all(F(float(v)) == v for r in s1 + s2 for v in r):
+            dis.append({"c1": s1, "c2": s2, "expected": [], "family": "parallel-hair-apart"})
+            dis.append({"c1": s2, "c2": s1, "expected": [], "family": "parallel-hair-apart"})
     sweep(ctx, "disjoint_boxes_give_empty_result", dis, [("Curve.intersect", ic.intersect_args("GEOMETRIC"))], judge_c03)
     sweep(ctx, "tangent_boxes_along_a_line_containing_one_curve", gen_tangent_line_family(ctx),
           [("Curve.intersect", ic.intersect_args("GEOMETRIC"))], judge_c03, known=known_f2)
